@@ -629,11 +629,20 @@ func r067InheritanceAgreement(c *an.Ctx, rule string) {
 		var out []string
 		seen := map[string]bool{}
 		ast.Inspect(f.Decl.Body, func(nd ast.Node) bool {
-			is, ok := nd.(*ast.IfStmt)
-			if !ok {
+			// the owners are tested in if / else-if chains or in the arms of a tagless switch
+			var cond ast.Expr
+			switch x := nd.(type) {
+			case *ast.IfStmt:
+				cond = x.Cond
+			case *ast.CaseClause:
+				if len(x.List) == 1 {
+					cond = x.List[0]
+				}
+			}
+			if cond == nil {
 				return true
 			}
-			cmp, ok := an.Unparen(is.Cond).(*ast.BinaryExpr)
+			cmp, ok := an.Unparen(cond).(*ast.BinaryExpr)
 			if !ok || cmp.Op != token.GTR {
 				return true
 			}
